@@ -186,6 +186,25 @@ func (fc *FnCtx) mapDelete(m Val, k Val) {
 
 func (fc *FnCtx) doNext(x *ssa.Next) {
 	v := fc.freshValWF("next", x.Type())
+	if rng, ok := x.Iter.(*ssa.Range); ok && !x.IsString {
+		// (ok bool, k K, v V) over a map: ok ==> k is a key of the map and v its current value
+		if mt, isMap := rng.X.Type().Underlying().(*types.Map); isMap {
+			if _, _, _, _, supported := fc.mapNames(mt); supported {
+				m := fc.operand(rng.X)
+				nk := nLeaves(mt.Key())
+				kv := Val{T: mt.Key(), L: v.L[1 : 1+nk]}
+				vv := Val{T: mt.Elem(), L: v.L[1+nk:]}
+				cur := fc.mapGet(fc.cur, m, kv)
+				var eqs []string
+				for i := range vv.L {
+					if i < len(cur.L) {
+						eqs = append(eqs, eq(vv.L[i], cur.L[i]))
+					}
+				}
+				fc.cur.assume(implies(v.L[0], and(append(eqs, fc.mapHas(fc.cur, m, kv))...)))
+			}
+		}
+	}
 	if x.IsString {
 		// (ok bool, index int, r rune): ok ==> 0 <= index < len(s)
 		if rng, ok := x.Iter.(*ssa.Range); ok {
@@ -231,10 +250,19 @@ func (fc *FnCtx) chanClass(v ssa.Value) string {
 	case *ssa.Field:
 		st := x.X.Type().Underlying().(*types.Struct)
 		return st.Field(x.Field).Name()
-	case *ssa.Extract:
-		return ""
 	}
-	return ""
+	// any value bound to a source-level name
+	best := ""
+	for name, ds := range fc.debugNames {
+		for _, d := range ds {
+			if d.val == v && !d.isAddr {
+				if best == "" || name < best {
+					best = name
+				}
+			}
+		}
+	}
+	return best
 }
 
 func (fc *FnCtx) chanInvariant(class string) ast.Expr {
@@ -299,9 +327,13 @@ func (fc *FnCtx) doRecv(x *ssa.UnOp, ch Val) {
 	if inv != nil {
 		env := fc.anchorEnv()
 		env.bound["m"] = v
-		// the invariant also holds of the zero value delivered by a closed channel: close() is checked against it
-		_ = okT
-		fc.cur.assume(env.evalBool(inv))
+		// plain receives (no ok flag) may deliver the zero value of a closed channel: close() of channels whose
+		// element type has plain receivers is checked against the invariant; comma-ok receives assume it under ok
+		if x.CommaOk {
+			fc.cur.assume(implies(okT, env.evalBool(inv)))
+		} else {
+			fc.cur.assume(env.evalBool(inv))
+		}
 	}
 	if x.CommaOk {
 		z := zeroVal(elemT)
@@ -314,7 +346,11 @@ func (fc *FnCtx) doRecv(x *ssa.UnOp, ch Val) {
 	} else {
 		fc.setVal(x, v)
 	}
+	res := fc.vals[x]
+	fc.anchorArgs = nil
+	fc.anchorRes = &res
 	fc.anchorAfter(anchor, x.Pos())
+	fc.anchorRes = nil
 }
 
 // chanClose: closing a channel that carries an invariant requires the zero value to satisfy it
@@ -330,6 +366,9 @@ func (fc *FnCtx) chanClose(ch Val, pos token.Pos) {
 		return
 	}
 	ct := cv.Type().Underlying().(*types.Chan)
+	if !fc.eng.plainRecvTypes[typeKey(ct.Elem())] {
+		return
+	}
 	env := fc.anchorEnv()
 	env.bound["m"] = zeroVal(ct.Elem())
 	fc.oblige("chan-close", class, env.evalBool(inv), pos, "closing a channel whose invariant excludes the zero value")
@@ -519,14 +558,14 @@ func (fc *FnCtx) errorsIs(e, t Val) string {
 }
 
 // errorfWraps: fmt.Errorf with a %w verb wraps the corresponding argument.
-func (fc *FnCtx) errorfWraps(r Val, args []Val) {
+func (fc *FnCtx) errorfWraps(r Val, args []Val) bool {
 	call, ok := fc.curInstr.(*ssa.Call)
 	if !ok || len(call.Call.Args) < 2 {
-		return
+		return false
 	}
 	fmtc, ok := call.Call.Args[0].(*ssa.Const)
 	if !ok || fmtc.Value == nil || fmtc.Value.Kind() != constant.String {
-		return
+		return true // unknown format: may wrap anything
 	}
 	f := constant.StringVal(fmtc.Value)
 	// index of the %w verb among verbs
@@ -550,7 +589,7 @@ func (fc *FnCtx) errorfWraps(r Val, args []Val) {
 		i = j
 	}
 	if idx < 0 {
-		return
+		return false
 	}
 	a := args[1] // []any
 	et := a.T.Underlying().(*types.Slice).Elem()
@@ -558,6 +597,7 @@ func (fc *FnCtx) errorfWraps(r Val, args []Val) {
 	fc.declareFunOnce("unw_tag", "("+SortTag+" (_ BitVec 64)) "+SortTag)
 	fc.declareFunOnce("unw_pay", "("+SortTag+" (_ BitVec 64)) (_ BitVec 64)")
 	fc.cur.assume(and(eq(app("unw_tag", r.L[0], r.L[1]), el.L[0]), eq(app("unw_pay", r.L[0], r.L[1]), el.L[1])))
+	return true
 }
 
 func (fc *FnCtx) sameBytes(st *State, a, b Val) string {
